@@ -5,7 +5,7 @@
 # /repo is NOT put on the path here: vf/main.py inserts it so that the
 # encoding is always regenerated from /repo's current working tree.
 set -e
-V=/verif/.venv
+V="$(cd "$(dirname "$0")" && pwd)/.venv"
 if [ ! -x "$V/bin/python" ] || ! "$V/bin/python" -c "import z3, numpy, sympy" >/dev/null 2>&1; then
   rm -rf "$V"
   /venv/bin/python -m venv "$V"
